@@ -233,7 +233,7 @@ impl BitFont {
         let length = u32::from_le_bytes(data[16..20].try_into().unwrap()) as usize;
         let charsize = u32::from_le_bytes(data[20..24].try_into().unwrap()) as usize;
         let expected = length.checked_mul(charsize).and_then(|size| size.checked_add(headersize));
-        if expected != Some(data.len()) {
+        if expected != Some(data.len()) || length > MAX_GLYPHS {
             return Err(FontError::LengthMismatch(data.len(), expected.unwrap_or(usize::MAX)).into());
         }
         let height = u32::from_le_bytes(data[24..28].try_into().unwrap()) as usize;
@@ -376,7 +376,7 @@ fn glyphs_from_u8_data(font_height: usize, mut data: &[u8]) -> HashMap<char, Gly
     let mut glyphs = HashMap::new();
     let mut ch = 0;
     // a height of 0 never consumes data, an incomplete last glyph is dropped
-    while font_height > 0 && data.len() >= font_height {
+    while font_height > 0 && data.len() >= font_height && ch < MAX_GLYPHS {
         let glyph = Glyph {
             data: data[..font_height].into(),
         };
@@ -389,6 +389,9 @@ fn glyphs_from_u8_data(font_height: usize, mut data: &[u8]) -> HashMap<char, Gly
     }
     glyphs
 }
+
+/// Glyphs are keyed by `char`: codes from the surrogate range (0xD800) on are not representable.
+const MAX_GLYPHS: usize = 0xD800;
 
 const DEFAULT_FONT_NAME: &str = "Codepage 437 English";
 pub const ANSI_FONTS: usize = 42;
